@@ -2,6 +2,7 @@ import PprofVerif.Lemmas.FilterName
 import PprofVerif.Lemmas.FilterCorollaries
 import PprofVerif.Lemmas.FilterShowFrom
 import PprofVerif.Model.TagFilter
+import PprofVerif.Lemmas.TagRange
 /-!
 # C06 — Sample filters keep exactly the documented samples, values untouched
 
@@ -221,7 +222,25 @@ theorem tagshow_taghide_spec (p : Profile) (sh hi : Option Rx) :
   simp only [Function.comp, view, tagsSpecView, filterTagsSample, hk]
   rfl
 
+/-- Numeric ranges of tagfocus/tagignore: for number tokens `a`, `b` (optional sign, digits,
+optional unit letters) that fit int64, the text `a` means "= a", `a:` "≥ a", `:a` "≤ a" and `a:b`
+"between a and b" when `b` scales into the unit of `a` (otherwise the text is not a range); the
+bounds are the numbers scaled by the model of `measurement.Scale` into the unit of the first. -/
+theorem parseTagFilterRange_spec (a b : TagFilter.NumTok) (ha : a.WF) (hb : b.WF) (va vb : Int)
+    (hva : TagFilter.parseInt64 a.num = some va) (hvb : TagFilter.parseInt64 b.num = some vb)
+    (sa : TagFilter.Q) (ua : Str) (hsa : TagFilter.scale va a.al a.al = some (sa, ua))
+    (sb : TagFilter.Q) (ub : Str) (hsb : TagFilter.scale vb b.al ua = some (sb, ub)) :
+    TagFilter.parseTagFilterRange a.text = .ok (some ⟨.eq, sa, sa, ua⟩) ∧
+    TagFilter.parseTagFilterRange (a.text ++ TagFilter.colon) = .ok (some ⟨.ge, sa, sa, ua⟩) ∧
+    TagFilter.parseTagFilterRange (TagFilter.colon ++ a.text) = .ok (some ⟨.le, sa, sa, ua⟩) ∧
+    TagFilter.parseTagFilterRange (a.text ++ TagFilter.colon ++ b.text) =
+      (if ua != ub then .ok none else .ok (some ⟨.between, sa, sb, ua⟩)) :=
+  TagFilter.parseTagFilterRange_forms a b ha hb va vb hva hvb sa ua hsa sb ub hsb
+
 -- non-vacuity: the hypotheses are satisfiable by non-trivial values
+example : (⟨[45], [49, 50], [107, 98]⟩ : TagFilter.NumTok).WF := by   -- "-12kb"
+  refine ⟨Or.inr (Or.inr rfl), by simp, by decide, by decide⟩
+example : TagFilter.parseInt64 (⟨[45], [49, 50], [107, 98]⟩ : TagFilter.NumTok).num = some (-12) := by decide
 example : witnessShowFrom.Valid := by decide
 example : ∀ l ∈ witnessShowFrom.locations, ShowFromWhole witnessShowFrom (fun s => s == [104, 97]) l := by
   intro l hl
